@@ -31,6 +31,7 @@ fn alphabet(with_foreign_price: bool) -> Vec<Value> {
     a.push(json!({"op":"update_price","id":1,"price":100}));
     a.push(json!({"op":"update_price_qty","id":1,"price":100,"qty":4}));
     a.push(json!({"op":"replace","id":2,"price":100,"qty":6}));
+    a.push(json!({"op":"replace","id":1,"price":100,"qty":0}));
     a.push(json!({"op":"cancel","id":9}));
     a.push(json!({"op":"read"}));
     a.push(json!({"op":"fork_restore"}));
